@@ -491,7 +491,8 @@ def run_batch(engine_name, prop, verif_seed, n_runs, tier, wall_cap_s, workers=N
                 while nxt < len(chunks) and len(pending) < workers * 2:
                     if time.time() - t0 > wall_cap_s or len([
                             v for v in agg["violations"]
-                            if do_min is True or v["violation"]["kind"].startswith(do_min)]) >= max_violations:
+                            if not v.get("pre_matched")      # listed findings do not end the batch
+                            and (do_min is True or v["violation"]["kind"].startswith(do_min))]) >= max_violations:
                         agg["wall_capped"] = time.time() - t0 > wall_cap_s
                         nxt = len(chunks)
                         break
